@@ -25,6 +25,10 @@ ASSUMPTIONS = ["oracle: per-policy expectations of the property statement on the
 
 NAMES = ["a", "b", "a_1"]
 VALUES = ["v1", "v2"]
+# typed pool: the same text as a string and as an integer are DIFFERENT values
+from ruamel.yaml.scalarint import ScalarInt  # noqa: E402
+TYPED = [lambda anc: PlainScalarString("1", anchor=anc), lambda anc: ScalarInt(1, anchor=anc),
+         lambda anc: PlainScalarString("v", anchor=anc)]
 POLICIES = ["stop", "left", "right", "rename"]
 
 
@@ -128,6 +132,43 @@ def anchors_merge(place: int, pol: int, k: int) -> bool:
     return True
 
 
+def typed_conflict(k: int) -> bool:
+    """Same anchor name, values of different type that print alike (1 vs '1'): still a conflict."""
+    k = realize(k)
+    tl, k = k % 3, k // 3
+    tr, k = k % 3, k // 3
+    pol = k % 4
+    lnode, rnode = TYPED[tl]("sh"), TYPED[tr]("sh")
+    lhs = cmap(("la", lnode), ("lb", lnode))
+    rhs = cmap(("ra", rnode), ("rb", rnode))
+    policy = POLICIES[pol]
+    merger = Merger(LOG, lhs, MergerConfig(LOG, SimpleNamespace(anchors=policy, config=None, mergeat="/")))
+    same = (tl == tr)
+    note(left=repr(lnode), right=repr(rnode), policy=policy)
+    try:
+        merger.merge_with(rhs)
+        refused = False
+    except MergeException:
+        refused = True
+    if same:
+        return not refused
+    if policy == "stop":
+        return refused
+    if refused:
+        return False
+    d = merger.data
+    lv, rv = (type(lnode).__name__, str(lnode)), (type(rnode).__name__, str(rnode))
+
+    def sig(n):
+        return (type(n).__name__, str(n))
+    if policy == "left":
+        return all(sig(d[k2]) == lv for k2 in ("la", "lb", "ra", "rb"))
+    if policy == "right":
+        return all(sig(d[k2]) == rv for k2 in ("la", "lb", "ra", "rb"))
+    return (sig(d["la"]) == lv and sig(d["lb"]) == lv and sig(d["ra"]) == rv and sig(d["rb"]) == rv
+            and d["ra"].anchor.value != d["la"].anchor.value and d["ra"].anchor.value == d["rb"].anchor.value)
+
+
 def shards(tier, seed):
     out = []
     n = 3 * 3 * 2 * 2 * 2 * (2 if tier == "thorough" else 1)
@@ -141,4 +182,6 @@ def shards(tier, seed):
                                       "under hash keys + list alias" if place == 0 else "inside arrays at an equal key",
                                       POLICIES[pol], NAMES, VALUES),
                              bounds={"k": "combined selector, %d combinations" % n}))
+    out.append(shard(PID, "typed", "harness.c10", "typed_conflict(k)", [("k", "int")], ["0 <= k < 36"], family="anchors/typed",
+                     budget=600, kind="S", desc="same anchor name, values '1' / 1 / 'v' on either side x four policies"))
     return out
